@@ -461,8 +461,22 @@ class Interp:
     def st_Delete(self, st, env):
         for t in st.targets:
             r = self.s.hook("delete", self, t, env)
-            if r is NotImplemented:
-                raise Unsupported("del")
+            if r is not NotImplemented:
+                continue
+            # del obj.attr[i] / del name[i] on a list with symbolic length (value semantics for the
+            # list itself: DESIGN 3.4, the list object is not aliased)
+            if isinstance(t, ast.Subscript) and not isinstance(t.slice, ast.Slice):
+                seq = self.eval(t.value, env)
+                idx = self.eval(t.slice, env)
+                if isinstance(seq, SymSeq) and seq.kind == "list":
+                    self.s.hook("on_delete_item", self, seq, idx, t)
+                    n = seq.length
+                    self.check_raise(S.Not(S.And(idx >= 0, idx < n)), "IndexError", t, "del list[i]")
+                    new = SymSeq(simp(n - 1), lambda j, seq=seq, idx=idx: _ite(simp(j < idx), seq.get(j), seq.get(simp(j + 1))), "list")
+                    new.elem_merge = getattr(seq, "elem_merge", None)
+                    self.assign(_as_store(t.value), new, env)
+                    continue
+            raise Unsupported("del")
 
     def st_FunctionDef(self, st, env):
         env.set(st.name, Func(st, self.frame.func.module, f"{self.frame.qualname}.<locals>.{st.name}", closure=env))
@@ -1186,6 +1200,15 @@ class Interp:
 
     def ex_Attribute(self, e, env):
         obj = self.eval(e.value, env)
+        if isinstance(obj, SymSeq) and obj.kind == "list" and e.attr == "append":
+            # list.append on a list with symbolic length: the new list value is stored back to the
+            # place the receiver was read from (value semantics, DESIGN 3.4: list not aliased)
+            def append(it, node, x, obj=obj, recv=e.value, env=env):
+                n = obj.length
+                new = SymSeq(simp(n + 1), lambda j, obj=obj, n=n, x=x: _ite(simp(j == n), x, obj.get(j)), "list")
+                it.assign(_as_store(recv), new, env)
+                return None
+            return Builtin("list.append", append)
         return self.getattr(obj, e.attr, e)
 
     def getattr(self, obj, name, node):
@@ -1571,6 +1594,31 @@ class LoopView:
             return True
         except KeyError:
             return False
+
+
+def _as_store(node):
+    n = ast.parse(ast.unparse(node), mode="eval").body
+    n.ctx = ast.Store()
+    return n
+
+
+def _ite(c, a, b):
+    """If(c, a, b) on element values (tuples element-wise)"""
+    if c is True:
+        return a
+    if c is False:
+        return b
+    if isinstance(a, tuple) and isinstance(b, tuple) and len(a) == len(b):
+        return tuple(_ite(c, x, y) for x, y in zip(a, b))
+    if hasattr(a, "ite"):
+        return a.ite(c, b)
+    if a is b:
+        return a
+    if is_z3(a) or is_z3(b):
+        return z3.If(c, a, b)
+    if a == b:
+        return a
+    raise Unsupported(f"cannot merge list elements {a!r} / {b!r}")
 
 
 def _load(target):
